@@ -277,6 +277,18 @@ fn dummy_bytes(d: &Dummy) -> Vec<u8> {
     bincode::serialize(d).unwrap()
 }
 
+/// items whose encoding is empty (the empty string / empty byte vector), favouring the positions
+/// where framing decisions are taken: the last item of a batch and the last item before finish()
+fn make_empty(r: &mut Rng, k: usize, cfg: &Cfg) -> bool {
+    let last = k + 1 == cfg.count;
+    let batch_end = matches!(cfg.batch, Some((s, _)) if s > 0 && (k + 1) % (s as usize) == 0);
+    if last || batch_end {
+        r.chance(1, 3)
+    } else {
+        r.chance(1, 10)
+    }
+}
+
 pub async fn run_case(client: &Client, raw: &RawPeer, seed: u64, i: u64, cfg: &Cfg, out: &mut String) {
     let mut r = Rng::new(seed.wrapping_mul(31337).wrapping_add(i) ^ 0x03);
     let topic = format!("/c03ns{}/t{:03}", seed % 100_000, i);
@@ -286,6 +298,9 @@ pub async fn run_case(client: &Client, raw: &RawPeer, seed: u64, i: u64, cfg: &C
         "string" => {
             let items: Vec<String> = (0..cfg.count)
                 .map(|k| {
+                    if make_empty(&mut r, k, cfg) {
+                        return String::new();
+                    }
                     let n = payload_len(&mut r, cfg.size_class);
                     let alphabet: &[char] = &['a', 'b', ' ', 'é', '\u{1F600}', 'Z', '7', '\n'];
                     let mut s: String = (0..n).map(|_| *r.pick(alphabet)).collect();
@@ -298,6 +313,9 @@ pub async fn run_case(client: &Client, raw: &RawPeer, seed: u64, i: u64, cfg: &C
         "bytes" => {
             let items: Vec<Vec<u8>> = (0..cfg.count)
                 .map(|k| {
+                    if make_empty(&mut r, k, cfg) {
+                        return vec![];
+                    }
                     let n = payload_len(&mut r, cfg.size_class);
                     let mut v = if r.chance(1, 2) { r.bytes(n) } else { vec![r.next() as u8; n] };
                     v.push(k as u8);
